@@ -96,6 +96,17 @@ pub fn replay_input(inp: &Value) -> i32 {
         Some("crc16") => check16(&msg),
         Some("crc7") => check7(&msg),
         Some("detect") => check_detect(&msg, inp["bits"].as_array().map(|a| a.iter().map(|x| x.as_u64().unwrap_or(0) as usize).collect::<Vec<usize>>()).unwrap_or_default().as_slice()),
+        Some("wire") => {
+            let j = json!({"kind": inp["card"], "crc": inp["crc"], "ops": inp["ops"]});
+            let found = super::sdprops::wire_checksum_replay(&j);
+            for (s, d) in &found {
+                println!("VIOLATION property=C19 signature=wire/{}\n  {}", s, d);
+            }
+            if found.is_empty() {
+                println!("no violation on replay");
+            }
+            return if found.is_empty() { 0 } else { 1 };
+        }
         _ => return 2,
     };
     match r {
@@ -357,6 +368,15 @@ pub fn run(tier: &str) -> i32 {
     }
     rep.assumptions.push("reference = bit-serial polynomial division written from the SD specification".into());
     rep.assumptions.push("the 'random messages' clause of the quantifier is replaced by deterministic length sweeps; no sampling contributes to the verdict".into());
+    // --- the checksums as the driver uses them on the bus
+    let (wire, frames_on_wire) = super::sdprops::wire_checksum_runs();
+    for (kind, crc, ops, sig, detail) in wire {
+        let x = v(&format!("wire/{}", sig), format!("card kind {}, CRC {}: {}", kind, if crc { "on" } else { "off" }, detail), json!({"kind":"wire","card":kind,"crc":crc,"ops":ops}));
+        if !viols.iter().any(|y| y.sig == x.sig) {
+            viols.push(x);
+        }
+    }
+    rep.cov("command_frames_checked_on_the_bus", json!(frames_on_wire));
     rep.add_violations(viols);
     rep.finish()
 }
